@@ -186,8 +186,11 @@ def build_chain(job, rng, trace, target, scale, law, seed):
             im = scale**2 * T * rng.uniform(0.7, 1.4, size=d)
             invM = np.diag(im)
         else:
-            B = rng.normal(size=(d, d)) * 0.4
-            im = np.diag(scale) @ (np.eye(d) + B @ B.T) @ np.diag(scale) * T
+            # strongly non-diagonal: correlation +-0.8 between every pair, so that a wrong factor of the mass
+            # matrix (momenta not matching the kinetic energy) visibly distorts the sampled distribution
+            sg = rng.choice([-1.0, 1.0], size=d)
+            R = (0.2 * np.eye(d) + 0.8 * np.ones((d, d))) * sg[:, None] * sg[None, :]
+            im = np.diag(scale) @ R @ np.diag(scale) * T * rng.uniform(0.7, 1.4)
             im = 0.5 * (im + im.T)
             invM = im
         info["invM"] = invM
